@@ -22,6 +22,11 @@ theorem take_append_drop_len (k : Nat) (l : List α) : l.take k ++ l.drop (l.tak
   · have h' : l.length ≤ k := by omega
     rw [Nat.min_eq_right h', List.take_of_length_le h']; simp
 
+theorem length_takeWhile_le' (p : α → Bool) (l : List α) : (l.takeWhile p).length ≤ l.length := by
+  induction l with
+  | nil => simp
+  | cons x xs ih => rw [List.takeWhile_cons]; split <;> simp <;> omega
+
 theorem reinsert_app (pre x rest : Text) : reinsert (pre ++ rest) pre.length x = pre ++ x ++ rest := by
   simp [reinsert]
 end helpers
@@ -212,5 +217,458 @@ theorem repeatText_length (t : Text) (n : Nat) : (repeatText t n).length = t.len
   induction n with
   | zero => simp [repeatText]
   | succ m ih => simp [repeatText, ih, Nat.mul_succ]; omega
+
+/-! ### `str.split(sep)` / `sep.join` -/
+
+theorem splitOn_ne_nil (c : Char) (t : Text) : splitOn c t ≠ [] := by
+  induction t with
+  | nil => simp [splitOn]
+  | cons x xs ih =>
+    unfold splitOn
+    split
+    · simp
+    · split <;> simp
+
+theorem join_splitOn (c : Char) (t : Text) : join [c] (splitOn c t) = t := by
+  induction t with
+  | nil => simp [splitOn, join]
+  | cons x xs ih =>
+    unfold splitOn
+    split
+    · rename_i h
+      cases hs : splitOn c xs with
+      | nil => exact absurd hs (splitOn_ne_nil c xs)
+      | cons l ls =>
+        rw [hs] at ih
+        simp [join, ih, h]
+    · cases hs : splitOn c xs with
+      | nil => exact absurd hs (splitOn_ne_nil c xs)
+      | cons l ls =>
+        rw [hs] at ih
+        simp only
+        cases ls with
+        | nil => simp [join] at ih ⊢; exact ih
+        | cons l2 ls2 => simp [join] at ih ⊢; exact ih
+
+/-- `(a + sep + b).split(sep) = a.split(sep) + b.split(sep)` -/
+theorem splitOn_cons (c x : Char) (xs : Text) :
+    splitOn c (x :: xs) = if x = c then [] :: splitOn c xs
+      else match splitOn c xs with
+        | [] => [[x]]
+        | l :: ls => (x :: l) :: ls := by
+  rfl
+
+theorem splitOn_append (c : Char) (a b : Text) :
+    splitOn c (a ++ c :: b) = splitOn c a ++ splitOn c b := by
+  induction a with
+  | nil => simp [splitOn]
+  | cons x xs ih =>
+    simp only [List.cons_append]
+    rw [splitOn_cons, splitOn_cons c x xs]
+    split
+    · simp [ih]
+    · rw [ih]
+      cases hs : splitOn c xs with
+      | nil => exact absurd hs (splitOn_ne_nil c xs)
+      | cons l ls => simp
+
+theorem splitOn_no_sep (c : Char) (l : Text) (h : c ∉ l) : splitOn c l = [l] := by
+  induction l with
+  | nil => simp [splitOn]
+  | cons x xs ih =>
+    simp at h
+    unfold splitOn
+    rw [if_neg (fun e => h.1 e.symm), ih h.2]
+
+theorem not_mem_of_mem_splitOn (c : Char) (t : Text) : ∀ l ∈ splitOn c t, c ∉ l := by
+  induction t with
+  | nil => simp [splitOn]
+  | cons x xs ih =>
+    unfold splitOn
+    split
+    · intro l hl; simp at hl; rcases hl with rfl | hl
+      · simp
+      · exact ih l hl
+    · rename_i hx
+      cases hs : splitOn c xs with
+      | nil => exact absurd hs (splitOn_ne_nil c xs)
+      | cons l0 ls =>
+        rw [hs] at ih
+        intro l hl; simp at hl; rcases hl with rfl | hl
+        · have := ih l0 (by simp)
+          simp; exact ⟨fun e => hx e.symm, this⟩
+        · exact ih l (by simp [hl])
+
+/-- `sep.join(ls).split(sep)` is the concatenation of the splits (for a non-empty list) -/
+theorem splitOn_join (c : Char) (ls : List Text) (h : ls ≠ []) :
+    splitOn c (join [c] ls) = ls.flatMap (splitOn c) := by
+  induction ls with
+  | nil => exact absurd rfl h
+  | cons l rest ih =>
+    cases rest with
+    | nil => simp [join]
+    | cons l2 rest2 =>
+      simp only [join, List.append_assoc, List.singleton_append]
+      rw [splitOn_append, ih (by simp)]
+      simp
+
+theorem flatMap_splitOn_lines (c : Char) (ls : List Text) (h : ∀ l ∈ ls, c ∉ l) :
+    ls.flatMap (splitOn c) = ls := by
+  induction ls with
+  | nil => rfl
+  | cons l rest ih =>
+    simp only [List.flatMap_cons]
+    rw [splitOn_no_sep c l (h l (by simp)), ih (fun l hl => h l (by simp [hl]))]
+    rfl
+
+/-- `"\n".join(A + B)` in terms of the joins of the two parts -/
+theorem join_append (sep : Text) (A B : List Text) :
+    join sep (A ++ B) = join sep A ++ (if A ≠ [] ∧ B ≠ [] then sep else []) ++ join sep B := by
+  induction A with
+  | nil => simp [join]
+  | cons a rest ih =>
+    cases rest with
+    | nil =>
+      cases B with
+      | nil => simp [join]
+      | cons b bs => simp [join]
+    | cons a2 rest2 =>
+      simp only [List.cons_append, join] at ih ⊢
+      rw [ih]
+      simp
+/-! ### BLOCK paste -/
+
+/-- one line of the buffer after a BLOCK paste: padded with spaces to the paste column, then
+    the data line (`count` times) inserted at that column -/
+def insAt (scol : Nat) (count : Int) (ln dl : Text) : Text :=
+  (ljust ln scol).take scol ++ rep dl count ++ (ljust ln scol).drop scol
+
+/-- the line list of the buffer extended by one empty line when the block reaches below it -/
+theorem blockGo_spec (scol : Nat) (count : Int) : ∀ (ds : List Text) (idx : Nat) (lines : List Text),
+    idx ≤ lines.length →
+    (blockGo scol count ds idx lines).length = max lines.length (idx + ds.length) ∧
+    (∀ j, j < idx → (blockGo scol count ds idx lines)[j]? = lines[j]?) ∧
+    (∀ i, i < ds.length → (blockGo scol count ds idx lines)[idx + i]? =
+        some (insAt scol count ((lines[idx + i]?).getD []) ((ds[i]?).getD []))) ∧
+    (∀ j, idx + ds.length ≤ j → (blockGo scol count ds idx lines)[j]? = lines[j]?) := by
+  intro ds
+  induction ds with
+  | nil =>
+    intro idx lines h
+    refine ⟨by simp [blockGo]; omega, fun _ _ => rfl, fun i hi => by simp at hi, fun _ _ => rfl⟩
+  | cons dl rest ih =>
+    intro idx lines h
+    simp only [blockGo]
+    generalize hl1 : (if idx ≥ lines.length then lines ++ [[]] else lines) = lines1
+    have hlen1 : lines1.length = max lines.length (idx + 1) := by
+      rw [← hl1]; split
+      · simp only [List.length_append, List.length_singleton]; omega
+      · omega
+    have hget1 : ∀ j, j ≠ idx → lines1[j]? = lines[j]? := by
+      intro j hj; rw [← hl1]; split
+      · rename_i hge
+        have : idx = lines.length := by omega
+        rw [List.getElem?_append]
+        split
+        · rfl
+        · rename_i hnlt
+          have : j - lines.length ≠ 0 := by omega
+          rw [List.getElem?_eq_none (by simp only [List.length_singleton]; omega), List.getElem?_eq_none (by omega)]
+      · rfl
+    have hgetidx : lines1[idx]? = some ((lines[idx]?).getD []) := by
+      rw [← hl1]; split
+      · rename_i hge
+        have : idx = lines.length := by omega
+        subst this
+        simp
+      · rename_i hlt
+        have : idx < lines.length := by omega
+        simp [List.getElem?_eq_getElem this]
+    generalize hl2 : lines1.modify idx (fun ln => (ljust ln scol).take scol ++ rep dl count ++ (ljust ln scol).drop scol) = lines2
+    have hlen2 : lines2.length = lines1.length := by rw [← hl2]; exact List.length_modify _ _ _
+    have hget2 : ∀ j, j ≠ idx → lines2[j]? = lines1[j]? := by
+      intro j hj; rw [← hl2, List.getElem?_modify]
+      cases lines1[j]? with
+      | none => rfl
+      | some x =>
+        have : ¬ (idx = j) := fun e => hj e.symm
+        simp [this]
+    have hget2idx : lines2[idx]? = some (insAt scol count ((lines[idx]?).getD []) dl) := by
+      rw [← hl2, List.getElem?_modify, hgetidx]; simp [insAt]
+    obtain ⟨i1, i2, i3, i4⟩ := ih (idx + 1) lines2 (by omega)
+    refine ⟨?_, ?_, ?_, ?_⟩
+    · rw [i1, hlen2, hlen1]; simp; omega
+    · intro j hj
+      rw [i2 j (by omega), hget2 j (by omega), hget1 j (by omega)]
+    · intro i hi
+      cases i with
+      | zero =>
+        simp only [Nat.add_zero, List.getElem?_cons_zero, Option.getD_some]
+        rw [i2 idx (by omega)]; exact hget2idx
+      | succ i' =>
+        have := i3 i' (by simp at hi; omega)
+        have e : idx + (i' + 1) = idx + 1 + i' := by omega
+        rw [e, this]
+        simp only [List.getElem?_cons_succ]
+        rw [hget2 _ (by omega), hget1 _ (by omega)]
+    · intro j hj
+      simp at hj
+      rw [i4 j (by omega), hget2 j (by omega), hget1 j (by omega)]
+
+theorem splitOn_length (t : Text) : (splitOn '\n' t).length = (t.filter isNl).length + 1 := by
+  induction t with
+  | nil => simp [splitOn]
+  | cons x xs ih =>
+    rw [splitOn_cons]
+    by_cases hx : x = '\n'
+    · simp [hx, ih, isNl]
+    · rw [if_neg hx]
+      have : isNl x = false := by simp [isNl, hx]
+      rw [List.filter_cons_of_neg (by simp [this])]
+      cases hs : splitOn '\n' xs with
+      | nil => exact absurd hs (splitOn_ne_nil _ _)
+      | cons l ls => rw [hs] at ih; simpa using ih
+
+theorem row_lt_lines (b : Buf) : row b < (splitOn '\n' b.text).length := by
+  rw [splitOn_length]
+  unfold row
+  have : b.text = b.before ++ b.after := (before_append_after b).symm
+  rw [this, List.filter_append, List.length_append]
+  simp only [Buf.before, Buf.after]
+  omega
+
+
+/-! ### Vi helpers -/
+
+/-- `Document.cut_selection` for a CHARACTERS selection in Vi mode (upper bound included) -/
+theorem cutSelection_chars (t : Text) (cur orig : Nat) :
+    cutSelection t cur orig .chars true =
+      ({ text := t.take (min cur orig) ++ t.drop (max cur orig + 1), cur := min cur orig },
+       { text := (t.take (max cur orig + 1)).drop (min cur orig), ty := .chars }) := by
+  simp [cutSelection, selectionRanges, cutLoop, join]
+
+theorem textObjectCut_chars (b : Buf) (orig : Nat) :
+    textObjectCut b orig .chars =
+      ({ text := b.text.take (min orig b.cur) ++ b.text.drop (max orig b.cur + 1), cur := min orig b.cur },
+       { text := (b.text.take (max orig b.cur + 1)).drop (min orig b.cur), ty := .chars }) := by
+  simp only [textObjectCut]
+  rw [cutSelection_chars]
+  have h1 : min (max orig b.cur) (min orig b.cur) = min orig b.cur := by omega
+  have h2 : max (max orig b.cur) (min orig b.cur) = max orig b.cur := by omega
+  rw [h1, h2]
+
+theorem regGet_regSet_same (regs : List (Char × Clip)) (c : Char) (d : Clip) :
+    regGet (regSet regs c d) c = some d := by
+  simp [regGet, regSet]
+
+theorem find_filter_other (ps : List (Char × Clip)) (c c' : Char) (h : c' ≠ c) :
+    (ps.filter fun p => p.1 ≠ c).find? (fun p => p.1 = c') = ps.find? (fun p => p.1 = c') := by
+  induction ps with
+  | nil => rfl
+  | cons p ps ih =>
+    by_cases hp : p.1 = c
+    · have hne : ¬ (p.1 = c') := fun e => h (e.symm.trans hp)
+      rw [List.filter_cons_of_neg (by simpa using hp), List.find?_cons_of_neg (by simpa using hne)]
+      exact ih
+    · rw [List.filter_cons_of_pos (by simpa using hp)]
+      by_cases hq : p.1 = c'
+      · rw [List.find?_cons_of_pos (by simpa using hq), List.find?_cons_of_pos (by simpa using hq)]
+      · rw [List.find?_cons_of_neg (by simpa using hq), List.find?_cons_of_neg (by simpa using hq)]
+        exact ih
+
+theorem regGet_regSet_other (regs : List (Char × Clip)) (c c' : Char) (d : Clip) (h : c' ≠ c) :
+    regGet (regSet regs c d) c' = regGet regs c' := by
+  unfold regGet regSet
+  rw [List.find?_cons_of_neg (by simpa using fun e : c = c' => h e.symm), find_filter_other _ _ _ h]
+
+theorem fixNav_text (b : Buf) : (fixNav b).text = b.text := by
+  unfold fixNav; split <;> rfl
+
+theorem fixNav_cur (b : Buf) : (fixNav b).cur = b.cur ∨ ((fixNav b).cur + 1 = b.cur ∧
+    (b.text[b.cur]? = none ∨ b.text[b.cur]? = some '\n')) := by
+  unfold fixNav
+  split
+  · rename_i h
+    right
+    obtain ⟨h1, h2⟩ := h
+    have : lineAfter b = [] := by
+      unfold lineAfter Buf.after
+      rcases h1 with h1 | h1
+      · have : b.text.length ≤ b.cur := by
+          rw [List.getElem?_eq_none_iff] at h1; exact h1
+        rw [List.drop_of_length_le this]; rfl
+      · have : b.text.drop b.cur = '\n' :: b.text.drop (b.cur + 1) := by
+          rw [List.getElem?_eq_some_iff] at h1
+          obtain ⟨hlt, he⟩ := h1
+          rw [← he]; exact List.drop_eq_getElem_cons hlt
+        rw [this]; simp [notNl]
+    rw [this] at h2
+    simp [lineBefore] at h2
+    have hc : 0 < b.cur := by
+      apply Nat.pos_of_ne_zero
+      intro h0
+      simp [Buf.before, h0] at h2
+    exact ⟨by simp; omega, h1⟩
+  · left; rfl
+
+theorem fixNav_wf (b : Buf) (h : WF b) : WF (fixNav b) := by
+  unfold WF at *
+  rw [fixNav_text]
+  rcases fixNav_cur b with h1 | ⟨h1, _⟩ <;> omega
+
+theorem take_sliceToLen (l : Text) (k : Nat) : l.take (sliceToLen l.length (k : Int)) = l.take k := by
+  unfold sliceToLen
+  have : ¬ ((k : Int) < 0) := by omega
+  rw [if_neg this]
+  simp only [Int.toNat_natCast]
+  by_cases h : k ≤ l.length
+  · rw [Nat.min_eq_left h]
+  · rw [Nat.min_eq_right (by omega), List.take_of_length_le (Nat.le_refl _), List.take_of_length_le (by omega)]
+
+/-- `Buffer.delete(k)` for a natural `k`: exactly the first `k` characters after the cursor go -/
+theorem delete_nat (b : Buf) (h : WF b) (k : Nat) :
+    (delete b (k : Int)).2 = b.after.take k ∧ (delete b (k : Int)).1.cur = b.cur ∧
+    b.text = reinsert (delete b (k : Int)).1.text b.cur (b.after.take k) ∧ WF (delete b (k : Int)).1 := by
+  obtain ⟨h1, h2, h3, _⟩ := delete_spec b h k
+  have hd : (delete b (k : Int)).2 = b.after.take k := by
+    unfold delete
+    split
+    · simp only; exact take_sliceToLen _ _
+    · rename_i hlt
+      unfold WF at h
+      have : b.after = [] := by simp [Buf.after]; omega
+      simp [this]
+  refine ⟨hd, h2, ?_, h3⟩
+  rw [← hd, ← h2]; exact h1
+
+
+theorem delete_nat_text (b : Buf) (h : WF b) (k : Nat) :
+    (delete b (k : Int)).1.text = b.before ++ b.after.drop k := by
+  unfold delete
+  split
+  · simp only [take_sliceToLen, drop_add_after]
+    congr 1
+    rw [List.length_take]
+    by_cases hk : k ≤ b.after.length
+    · rw [Nat.min_eq_left hk]
+    · rw [Nat.min_eq_right (by omega), List.drop_of_length_le (Nat.le_refl _), List.drop_of_length_le (by omega)]
+  · unfold WF at h
+    have : b.after = [] := by simp [Buf.after]; omega
+    rw [this]; simp
+    rw [← before_append_after b, this]; simp
+
+/-- `Buffer.delete_before_cursor(k)` for `k ≤ cursor` -/
+theorem deleteBefore_le (b : Buf) (h : WF b) (k : Nat) (hk : k ≤ b.cur) :
+    (deleteBefore b k).2 = b.before.drop (b.cur - k) ∧ (deleteBefore b k).1.cur = b.cur - k ∧
+    b.text = reinsert (deleteBefore b k).1.text (b.cur - k) (b.before.drop (b.cur - k)) := by
+  obtain ⟨h1, h2, _, h4⟩ := deleteBefore_spec b h k
+  have hm : min k b.cur = k := Nat.min_eq_left hk
+  rw [hm] at h4
+  have hlen : (deleteBefore b k).2.length = k := by
+    rw [h4]; unfold WF at h; simp [Buf.before]; omega
+  have hc : (deleteBefore b k).1.cur = b.cur - k := by omega
+  refine ⟨h4, hc, ?_⟩
+  rw [← h4, ← hc]; exact h1
+/-! ### lines: joins, newline counts, rows -/
+
+theorem join_cons_ne (sep : Text) (x : Text) (B : List Text) :
+    join sep (x :: B) = x ++ (if B ≠ [] then sep else []) ++ join sep B := by
+  cases B with
+  | nil => simp [join]
+  | cons b bs => simp [join]
+
+/-- joining a list in which one element is itself a join of (non-empty) `M` is joining the flat list -/
+theorem join_join_middle (sep : Text) (A M B : List Text) (hM : M ≠ []) :
+    join sep (A ++ [join sep M] ++ B) = join sep (A ++ M ++ B) := by
+  rw [List.append_assoc, List.append_assoc, join_append, join_append sep A (M ++ B), join_append sep M B]
+  simp only [List.singleton_append, join_cons_ne]
+  have h1 : (join sep M :: B ≠ []) = True := by simp
+  have h2 : (M ++ B ≠ []) = True := by simp [hM]
+  simp only [h1, h2, hM, ne_eq, not_false_eq_true, true_and, and_true, List.append_assoc]
+
+theorem count_nl_join (A : List Text) (h : ∀ l ∈ A, '\n' ∉ l) :
+    ((join ['\n'] A).filter isNl).length = A.length - 1 := by
+  induction A with
+  | nil => simp [join]
+  | cons a rest ih =>
+    have ha : a.filter isNl = [] := by
+      rw [List.filter_eq_nil_iff]
+      intro c hc hn
+      simp [isNl] at hn
+      subst hn
+      exact h a (by simp) hc
+    cases rest with
+    | nil => simp [join, ha]
+    | cons b bs =>
+      simp only [join, List.filter_append, List.length_append, ha]
+      have := ih (fun l hl => h l (by simp [hl]))
+      simp only [List.length_cons] at this ⊢
+      have e : (List.filter isNl ['\n']).length = 1 := by decide
+      rw [this, e]; simp; omega
+
+theorem lstripChar_spec' (c : Char) (l : Text) :
+    ∃ k, k ≤ l.length ∧ lstripChar c l = l.drop k ∧ ∀ x ∈ l.take k, x = c := by
+  induction l with
+  | nil => exact ⟨0, by simp [lstripChar]⟩
+  | cons x xs ih =>
+    unfold lstripChar
+    split
+    · obtain ⟨k, hk0, hk, ha⟩ := ih
+      refine ⟨k + 1, by simp; omega, by simpa using hk, ?_⟩
+      intro y hy; simp at hy; rcases hy with rfl | hy
+      · assumption
+      · exact ha y hy
+    · exact ⟨0, by simp⟩
+
+theorem row_fixNav (b : Buf) (h : WF b) : row (fixNav b) = row b := by
+  unfold fixNav
+  split
+  · rename_i hc
+    obtain ⟨h1, h2⟩ := hc
+    have hla : lineAfter b = [] := by
+      unfold lineAfter Buf.after
+      rcases h1 with h1 | h1
+      · have : b.text.length ≤ b.cur := by
+          rw [List.getElem?_eq_none_iff] at h1; exact h1
+        rw [List.drop_of_length_le this]; rfl
+      · have : b.text.drop b.cur = '\n' :: b.text.drop (b.cur + 1) := by
+          rw [List.getElem?_eq_some_iff] at h1
+          obtain ⟨hlt, he⟩ := h1
+          rw [← he]; exact List.drop_eq_getElem_cons hlt
+        rw [this]; simp [notNl]
+    rw [hla] at h2
+    simp only [List.append_nil, lineBefore, List.length_reverse] at h2
+    -- the last character before the cursor is not a newline
+    unfold WF at h
+    have hlen : b.before.length = b.cur := by simp [Buf.before]; omega
+    rcases List.eq_nil_or_concat b.before with hnil | ⟨pre, x, hx⟩
+    · rw [hnil] at h2; simp at h2
+    · rw [hx] at h2 hlen
+      simp [List.takeWhile_cons] at h2
+      have hxn : notNl x = true := by
+        by_cases hx' : notNl x = true
+        · exact hx'
+        · simp [hx'] at h2
+      simp at hlen
+      have hpre : b.text.take (b.cur - 1) = pre := by
+        have : b.text.take (b.cur - 1) = (b.before).take (b.cur - 1) := by
+          simp only [Buf.before, List.take_take]; congr 1; omega
+        rw [this, hx]
+        have : b.cur - 1 = pre.length := by omega
+        rw [this]; simp
+      unfold row
+      simp only [Buf.before] at hx ⊢
+      rw [hpre, hx, List.concat_eq_append, List.filter_append]
+      have : [x].filter isNl = [] := by
+        simp [isNl]; simpa [notNl] using hxn
+      rw [this]; simp
+  · rfl
+
+theorem filter_isNl_spaces (l : Text) (h : ∀ x ∈ l, x = ' ') : l.filter isNl = [] := by
+  rw [List.filter_eq_nil_iff]
+  intro c hc hn
+  have := h c hc
+  subst this
+  simp [isNl] at hn
 
 end Ptk.C09
